@@ -42,6 +42,7 @@ RULE = ("one evaluation = one history with 2-6 round trips over the routes {dict
 REAL_STUB = "real: yastn (de)serialisers, numpy.save/load, h5py. stub: the file system (io.BytesIO; h5py File(driver='core', backing_store=False))."
 ASSUMPTIONS = ["routes that materialise by documentation (save_to_hdf5, legacy save_to_dict consume the pending transpose) must still restore an observationally identical object"]
 CHUNK = 6
+WALL_CAP = 1200
 WEIGHTS = {"rand": 3, "rand_diag": 1, "transpose": 3, "fuse": 3, "unfuse": 1, "conj": 1, "tensordot": 1.5, "add": 1, "add_leg": 1, "diag": 0.5, "scal": 0.5,
            "meta_to_hard": 0.3, "svd": 0.7, "serial": 8, "serial_meta": 4, "serial_reject": 1.5, "pair_unary": 1, "fuse_pair": 1, "apply_mask": 0.5}
 
